@@ -223,6 +223,10 @@ pub enum BlockKind {
     NextB,
     /// PoA at tip+1 carrying a transaction that an earlier block already stored
     NextWithStoredTx,
+    /// PoA at tip+1 with two transactions: an already stored one, then a new one
+    NextStoredThenNewTx,
+    /// PoA at tip+1 with two transactions: a new one, then an already stored one
+    NextNewThenStoredTx,
     /// the tip block again
     DuplicateTip,
     /// PoA at tip+2
@@ -350,6 +354,13 @@ impl W08 {
                 let dup = stored(&tx, self);
                 Planned { sealed: make_block(h, vec![tx], false, 3), admissible: !dup, why: "a transaction of the block already exists" }
             }
+            BlockKind::NextStoredThenNewTx | BlockKind::NextNewThenStoredTx => {
+                let old = self.stored_txs.last()?.clone();
+                let h = tip? + 1;
+                let dup = stored(&old, self);
+                let (txs, variant) = if kind == BlockKind::NextStoredThenNewTx { (vec![old, new_tx(h, 4)], 4) } else { (vec![new_tx(h, 5), old], 5) };
+                Planned { sealed: make_block(h, txs, false, variant), admissible: !dup, why: "one of the block's transactions already exists" }
+            }
             BlockKind::DuplicateTip => {
                 let b = self.tip_block.clone()?;
                 if matches!(b.consensus, Consensus::Genesis(_)) {
@@ -467,7 +478,7 @@ impl Subject08 {
     fn menu(&self) -> Vec<Op08> {
         use BlockKind::*;
         let mut v = vec![];
-        let all = [Genesis0, NextA, NextB, Genesis5, NextWithStoredTx, DuplicateTip, Skip, Stale, PoAZero];
+        let all = [Genesis0, NextA, NextB, Genesis5, NextWithStoredTx, NextStoredThenNewTx, NextNewThenStoredTx, DuplicateTip, Skip, Stale, PoAZero];
         for b in all {
             v.push(Op08::Commit { block: b, changes: ExecChanges::Empty, local: false, fault: Fault::None });
         }
@@ -553,7 +564,7 @@ impl Subject for Subject08 {
                     Op08::Concurrent { first, second, .. } => vec![*first, *second],
                 };
                 kinds.iter().all(|k| match k {
-                    BlockKind::NextWithStoredTx => w.tip().is_some() && !w.stored_txs.is_empty(),
+                    BlockKind::NextWithStoredTx | BlockKind::NextStoredThenNewTx | BlockKind::NextNewThenStoredTx => w.tip().is_some() && !w.stored_txs.is_empty(),
                     BlockKind::DuplicateTip => w.tip_block.as_ref().map(|b| !matches!(b.consensus, Consensus::Genesis(_))).unwrap_or(false),
                     BlockKind::Skip => w.tip().is_some(),
                     BlockKind::Stale => w.tip().map(|t| t > 0).unwrap_or(false),
@@ -741,7 +752,7 @@ pub fn run(cli: &Cli) {
         crate::util::require_labels(
             &r,
             &[
-                "commit:Genesis0", "commit:NextA", "commit:NextB", "commit:NextWithStoredTx", "commit:DuplicateTip", "commit:Skip", "commit:Stale", "commit:PoAZero", "commit:PublishFails", "commit:TouchBlockMerkleRoot", "execute:NextA",
+                "commit:Genesis0", "commit:NextA", "commit:NextB", "commit:NextWithStoredTx", "commit:NextStoredThenNewTx", "commit:NextNewThenStoredTx", "execute:NextStoredThenNewTx", "commit:DuplicateTip", "commit:Skip", "commit:Stale", "commit:PoAZero", "commit:PublishFails", "commit:TouchBlockMerkleRoot", "execute:NextA",
                 "execute:VerificationFails", "execute:ExecutionFails", "execute:TouchBlockMerkleRoot", "concurrent",
             ],
         );
